@@ -248,15 +248,28 @@ class MetadataManager:
                 # PHASE 3.5: Fencing - re-validate lock ownership immediately
                 # before the commit point. A holder whose lease was broken (e.g.
                 # after a long pause) must not flip the hint.
-                if not self.lock_provider.is_held():
-                    raise ConcurrentModificationException(
-                        "Lost distributed lock before commit point; retrying"
-                    )
+                try:
+                    if not self.lock_provider.is_held():
+                        raise ConcurrentModificationException(
+                            "Lost distributed lock before commit point; retrying"
+                        )
 
-                # PHASE 4: Atomically make new version visible.
-                # This is the commit point - after this, the new metadata is visible.
-                # If we crash before this, the new metadata file is orphaned but table is consistent.
-                self._write_hint_at_commit_point(metadata_file, hint_etag)
+                    # PHASE 4: Atomically make new version visible.
+                    # This is the commit point - after this, the new metadata is visible.
+                    # If we crash before this, the new metadata file is orphaned but table is consistent.
+                    self._write_hint_at_commit_point(metadata_file, hint_etag)
+                except AmbiguousCommitError:
+                    # The pointer may name our file: it must stay.
+                    raise
+                except Exception:
+                    # Clean failure (lost fence, lost CAS race, local rename that
+                    # never happened): the pointer never named this file. Remove
+                    # it, or it would sit in metadata/ with the highest version
+                    # number and be picked as "the latest version" by recovery
+                    # the day the hint is lost - surfacing a commit that was
+                    # reported as failed.
+                    self._discard_uncommitted_metadata(metadata_path)
+                    raise
 
                 # Success - update in-memory version
                 self.current_version = next_version
@@ -345,6 +358,13 @@ class MetadataManager:
             raise AmbiguousCommitError(
                 f"Version hint write failed ambiguously: {e}"
             ) from e
+
+    def _discard_uncommitted_metadata(self, metadata_path: str) -> None:
+        """Best-effort removal of a metadata file whose commit cleanly failed."""
+        try:
+            self.storage.delete_file(metadata_path)
+        except Exception as e:
+            logger.warning(f"Could not remove uncommitted metadata file {metadata_path}: {e}")
 
     def _release_lock_safely(self) -> None:
         """Release the distributed lock without ever raising."""
